@@ -55,3 +55,33 @@ Theorem c01_ie_decoders_safe : forall buf rd, wfbytes buf -> agrees rd buf ->
   (forall b, exists o, handle_msft rd b 0 (zlen buf) = Done o /\ negative_or_ok o).
 Proof. exact decoders_direct_safe. Qed.
 Print Assumptions c01_ie_decoders_safe.
+
+(* ---- the RSN and WPA element decoders AS TRANSLATED from security.c on this run (Gen/Sites.v), run with ONLY the element body readable ---- *)
+From Coq Require Import String.
+From LW Require Import Base.Bytes Base.CExpr Gen.Sites Spec.CodeSpec Model.Security Proofs.CodeSecurity.
+Local Open Scope string_scope.
+Local Open Scope Z_scope.
+(* for EVERY element body the run returns - it is never stuck, so no load leaves the element and no signed arithmetic overflows - with 0 or -EINVAL,
+   and every memcpy it makes reads inside the element *)
+
+Theorem c01_code_rsn_info_safe : forall buf start rho,
+  wfbytes buf -> 0 < start -> start + zlen buf < 2 ^ 62 ->
+  let rho0 := upd (upd rho "tag_data" start) "tag_end" (start + zlen buf) in
+  exists v tr,
+    observe (exec 400 (mem_at start buf) rho0 [] body_libwifi_get_rsn_info) = Some (Some v, tr) /\
+    (v = 0 \/ v = -22) /\
+    (forall dst src n, In ("memcpy", [dst; src; n]) tr -> start <= src /\ src + n <= start + zlen buf).
+Proof. exact code_rsn_info_safe. Qed.
+Print Assumptions c01_code_rsn_info_safe.
+
+
+Theorem c01_code_wpa_info_safe : forall buf start rho,
+  wfbytes buf -> 0 < start -> start + zlen buf < 2 ^ 62 ->
+  let rho0 := upd (upd rho "tag_data" start) "tag_end" (start + zlen buf) in
+  exists v tr,
+    observe (exec 400 (mem_at start buf) rho0 [] body_libwifi_get_wpa_info) = Some (Some v, tr) /\
+    (v = 0 \/ v = -22) /\
+    (forall dst src n, In ("memcpy", [dst; src; n]) tr -> start <= src /\ src + n <= start + zlen buf).
+Proof. exact code_wpa_info_safe. Qed.
+Print Assumptions c01_code_wpa_info_safe.
+
